@@ -1,22 +1,28 @@
 """C04 — applying a layer environment follows the CNB modification rules.
 
-Decided structurally:
+Decided structurally, by evaluating the two apply functions once per case of the rule table (C04_helpers) instead of
+recognising one spelling of them:
   R1 scope table       per Scope variant the ordered list of deltas applied: All->[all];
                        Build->[all, build, layer_paths_build]; Launch->[all, launch, layer_paths_launch];
-                       Process(p)->[all, process[p] if present]; folded left-to-right with the running env
-  R2 behaviour order   the rank table in Ord for ModificationBehavior sorts the variants in the
-                       lexicographic order of their file suffixes (the lifecycle applies files by name)
+                       Process(p)->[all, process[p] if present]; folded left-to-right with the running env.
+                       LayerEnv::apply is sliced with the scope fixed (definitions / pushes of other arms vanish, private
+                       helpers inlined); the result must be a fold / loop / nest of delta applications from the input env
+                       over an ordered collection (array, vec + push/extend, once/chain, Option, helper result)
+  R2 behaviour order   cmp, with its private rank helper made transparent, is rank(self).cmp(rank(other)) for one
+                       constant table (or the discriminants), and the ranks sort the variants in the lexicographic
+                       order of their file suffixes (the lifecycle applies files by name)
   R3 frame             apply takes &self and &Env and returns an owned Env; no interior mutability in
                        Env / LayerEnv / LayerEnvDelta
   R4 ordered entries   entries live in a BTreeMap keyed by (behaviour, name); insert is the only writer
-  R5 arm shapes        per behaviour: override = unguarded insert of the value; default = insert guarded by
-                       !contains_key; append = prev [+ delim if prev non-empty] + value; prepend = value
-                       [+ delim + prev if prev non-empty]; delimiter = no insert; delimiter looked up
-                       under (Delimiter, same name)
+  R5 arm shapes        for every (behaviour) x (variable unset / empty / non-empty) x (delimiter entry present / absent):
+                       the inserts performed on the feasible paths of one entry's application are exactly the rule —
+                       override: NAME := VALUE; default: NAME := VALUE only when unset; append: PREV [+ DELIM] + VALUE;
+                       prepend: VALUE [+ DELIM + PREV] (delimiter only when PREV is non-empty, DELIM = the delta's
+                       (Delimiter, same name) entry or nothing); delimiter: no insert — on every path (always/<arm>)
 Not decided: the resulting byte strings for all value combinations (value level).
 """
 from . import layer_env_common as L
-from .lib.guards import conditions
+from . import C04_helpers as H
 from .lib.paths import strip
 from .lib.value import vstr, walk
 from .lib.tables import field_accesses
@@ -25,58 +31,48 @@ SPEC_SCOPE = {'All': ['all'], 'Build': ['all', 'build', 'layer_paths_build'], 'L
               'Process': ['all', 'process[scope.process]?']}
 
 
-def sym(f, v):
-    """classify a value inside LayerEnvDelta::apply"""
-    v = strip(v)
-    if v[0] == 'concat':   # the string being built: classify what it was before the pushes
-        v = strip(v[1])
-    coll, proj = L.loop_element(v)
-    if coll is not None and L.self_field(f, coll) == 'entries':
-        return {('0', '1'): 'NAME', ('1',): 'VALUE', ('0', '0'): 'BEHAVIOUR'}.get(proj, 'ELEM' + str(proj))
-    if v[0] == 'call':
-        n = v[1]
-        if n == 'std::ffi::OsString::new':
-            return 'NEW'
-        if n.endswith(('unwrap_or_default', 'map_or_else', 'unwrap_or_else', 'map_or')) and v[2] and n.startswith('std::option::Option::'):
-            # the previous value, empty when unset: get(NAME).cloned().unwrap_or_default() and its equivalents
-            g = strip(v[2][0])
-            rest = [strip(x) for x in v[2][1:]]
-            fresh = lambda x: (x[0] == 'fnitem' and x[1].endswith(('OsString::new', 'Default>::default', 'Default::default'))) or \
-                (x[0] == 'call' and x[1].endswith(('OsString::new', 'Default::default')))
-            keep = lambda x: x[0] == 'fnitem' and x[1].endswith(('Clone>::clone', 'Clone::clone', 'ToOwned>::to_owned', 'to_os_string', 'to_owned'))
-            ok_rest = (not rest) or (len(rest) == 2 and fresh(rest[0]) and keep(rest[1])) or (len(rest) == 1 and fresh(rest[0]))
-            if ok_rest and g[0] == 'call' and g[1] == 'libcnb::env::Env::get' and sym(f, g[2][1]) == 'NAME':
-                return 'PREV'
-        if n == L.DELIM_FOR and sym(f, v[2][1]) == 'NAME':
-            return 'DELIM'
-    return vstr(v)[:60]
-
-
-def guard_str(g, cd):
-    """canonical rendering of a boolean guard inside LayerEnvDelta::apply: equivalent spellings give the same string
-    (`!v.is_empty()` / `v.len() != 0`; `!env.contains_key(n)` / `env.get(n).is_none()`)"""
-    if cd.kind == 'variant' and cd.enum == 'std::option::Option' and cd.subject is not None:
-        sv = strip(cd.subject)
-        if sv[0] == 'call' and sv[1] == 'libcnb::env::Env::get' and len(cd.outcome) == 1:
-            return 'contains_key(%s)==%s' % (sym(g, sv[2][1]), next(iter(cd.outcome)) == 'Some')
-        return None
-    if cd.kind != 'bool':
-        return None
-    v, oc = cd.value, cd.outcome
-    if v[0] == 'bin' and v[1] in ('Ne', 'Eq', 'Gt') and strip(v[3]) == ('const', 0) and strip(v[2])[0] == 'call' and strip(v[2])[1].endswith('::len'):
-        empty = oc if v[1] == 'Eq' else (not oc)
-        return 'is_empty(%s)==%s' % (sym(g, strip(v[2])[2][0]), empty)
-    if v[0] != 'call':
-        return None
-    n = v[1].split('::')[-1]
-    if n in ('is_none', 'is_some') and v[1].startswith('std::option::Option::'):
-        inner = strip(v[2][0])
-        if inner[0] == 'call' and inner[1] == 'libcnb::env::Env::get':
-            present = oc if n == 'is_some' else (not oc)
-            return 'contains_key(%s)==%s' % (sym(g, inner[2][1]), present)
-    if n in ('is_empty', 'contains_key'):
-        return '%s(%s)==%s' % (n, sym(g, v[2][0 if n == 'is_empty' else 1]), oc)
-    return '%s==%s' % (v[1], oc)
+def rank_table(prog, sl, cmpf):
+    """(rank helper Fn | None, {variant: rank}, cmp is rank(self).cmp(rank(other)), rendering) from the normal form of
+    Ord::cmp: private helpers inlined, `b.cmp(a).reverse()` turned around"""
+    raw = strip(sl.local(cmpf, 0))
+    rv = strip(sl.inline_deep(raw))
+    while rv[0] == 'call' and rv[1].endswith('Ordering::reverse') and len(rv[2]) == 1 and strip(rv[2][0])[0] == 'call' \
+            and strip(rv[2][0])[1].endswith('::cmp') and len(strip(rv[2][0])[2]) == 2:
+        inner = strip(rv[2][0])
+        rv = ('call', inner[1], (inner[2][1], inner[2][0]), inner[3] if len(inner) > 3 else None)
+    shown = vstr(rv)[:160]
+    if not (rv[0] == 'call' and rv[1].endswith('::cmp') and len(rv[2]) == 2):
+        return None, {}, False, shown
+    tables, subjects = [], []
+    for a in rv[2]:
+        a = strip(a)
+        while a[0] == 'cast':
+            a = strip(a[1])
+        if a[0] == 'discr':
+            # the variants compared by their discriminants (derived Ord, `*self as u8`): the rank is the discriminant
+            tables.append({v['name']: v['discr'] for v in prog.adt(L.MB)['variants'] if isinstance(v.get('discr'), int)})
+            subjects.append(strip(a[1]))
+            continue
+        if not (a[0] == 'select' and a[2] == L.MB):
+            return None, {}, False, shown
+        t = {}
+        for names, val in a[3]:
+            val = strip(val)
+            while val[0] == 'cast':
+                val = strip(val[1])
+            for n in names:
+                if val[0] == 'const' and isinstance(val[1], int) and not isinstance(val[1], bool):
+                    t[n] = val[1]
+        tables.append(t)
+        subjects.append(strip(a[1]))
+    good = tables[0] == tables[1] and all(s[0] == 'param' and s[1] == cmpf.path for s in subjects) and \
+        subjects[0][2] == 0 and subjects[1][2] == 1
+    ifn = None
+    for x in walk(raw):
+        if x[0] == 'call' and x[1] in prog.fns and prog.fns[x[1]].kind != 'Closure':
+            ifn = prog.fns[x[1]]
+            break
+    return ifn, tables[0], good, shown
 
 
 def run(ctx, rep):
@@ -89,71 +85,53 @@ def run(ctx, rep):
     rep.rule('R5', 'per-behaviour arm shapes of LayerEnvDelta::apply')
     rep.not_decided = ['resulting byte strings for all value combinations', 'correctness of OsString::push']
     # ---- R1 ----------------------------------------------------------------------------------------
-    f, table, info = L.apply_scope_table(prog, sl)
+    # one evaluation of LayerEnv::apply per Scope variant (C04_helpers.ScopeEval): with the scope fixed, the returned
+    # value must be a left fold of the delta application over an ordered collection, starting from the input env —
+    #   deltas.iter().fold(env.clone(), |env, delta| delta.apply(&env))
+    #   let mut r = env.clone(); for delta in deltas { r = delta.apply(&r) }; r
+    #   let mut r = self.all.apply(env); for delta in <helper / Option chain> { r = delta.apply(&r) }; r
+    # are the same list of deltas; a delta looked up under the process name counts as `process[scope.process]?`
+    try:
+        f, table, why, shapes = H.scope_tables(prog)
+    except Exception as e:      # an unexpected program shape: every R1 instance fails closed, the other rules still run
+        f = prog.fn(L.APPLY)
+        table, shapes = {}, {}
+        why = {v: 'evaluation failed: %s: %s' % (type(e).__name__, str(e)[:80]) for v in SPEC_SCOPE}
     rep.analysed(f)
     where = '%s:%d' % (f.file, f.line)
     rep.extra['scope_table'] = table
     for variant, want in SPEC_SCOPE.items():
         got = table.get(variant)
         rep.check(got == want, 'R1', 'apply/' + variant, where, '%s -> %s' % (variant, want),
-                  'Scope::%s applies deltas %s, the CNB rules require %s' % (variant, got, want))
+                  'Scope::%s applies deltas %s, the CNB rules require %s%s' % (variant, got, want, (' (%s)' % why.get(variant)) if why.get(variant) else ''))
     for variant in table:
         if variant not in SPEC_SCOPE:
             rep.violated('R1', 'apply/extra/' + str(variant), where, 'unexpected scope arm %s' % variant)
-    # folded left to right over the list, starting from the input env. Accepted idioms:
-    #   deltas.iter().fold(env.clone(), |env, delta| delta.apply(&env))
-    #   let mut r = env.clone(); for delta in deltas { r = delta.apply(&r) }; r
     rv = strip(sl.local(f, 0))
-    rev = any(x[0] == 'call' and x[1].split('::')[-1].lower() in ('rev', 'reverse', 'sort', 'sort_by', 'sort_by_key') for x in walk(rv)) or \
-        any((c.name or '').split('::')[-1] in ('rev', 'reverse', 'sort', 'sort_by', 'sort_by_key', 'swap', 'rotate_left', 'rotate_right') for c in f.calls)
-    is_env = lambda v: strip(v)[0] == 'param' and strip(v)[1] == f.path and strip(v)[2] == 2
-    shape = None
-    if rv[0] == 'call' and rv[1] == 'std::iter::Iterator::fold' and len(rv[2]) == 3:
-        it, init, cl = rv[2]
-        cl = strip(cl)
-        body_ok = False
-        if cl[0] == 'closure' and cl[1] in prog.fns:
-            body = prog.fns[cl[1]]
-            bv = strip(sl.local(body, 0))
-            body_ok = (bv[0] == 'call' and bv[1] == L.DAPPLY and strip(bv[2][0])[0] == 'param' and strip(bv[2][0])[2] == 2
-                       and strip(bv[2][1])[0] == 'param' and strip(bv[2][1])[2] == 1)
-        if is_env(init) and body_ok:
-            shape = 'fold'
-    elif rv[0] == 'phi':
-        alts = [strip(a) for a in rv[1]]
-        steps = [a for a in alts if a[0] == 'call' and a[1] == L.DAPPLY]
-        inits = [a for a in alts if is_env(a)]
-        if len(steps) == 1 and len(inits) == 1 and len(alts) == 2:
-            coll, proj = L.loop_element(steps[0][2][0])
-            calls = [c for c in f.calls if c.name == L.DAPPLY]
-            if coll is not None and len(calls) == 1 and f.in_loop(calls[0].bb):
-                shape = 'loop'
-    rep.check(shape is not None and not rev, 'R1', 'apply/fold', where, 'deltas applied one after the other in list order, starting from the input env (%s)' % shape,
-              'deltas are not folded left-to-right from the input env: ' + vstr(rv)[:160])
+    rev = any(x[0] == 'call' and x[1].split('::')[-1].lower() in H.ORDER_CHANGING for x in walk(sl.inline_deep(rv, keep=(L.DAPPLY,)))) or \
+        bool(H.order_changing_calls(prog, f))
+    folded = all(table.get(v) is not None for v in SPEC_SCOPE)
+    rep.check(folded and not rev, 'R1', 'apply/fold', where,
+              'deltas applied one after the other in list order, starting from the input env (%s)' % '/'.join(sorted({str(x) for x in shapes.values()})),
+              'deltas are not folded left-to-right from the input env: %s' % ('; '.join(sorted({str(w) for w in why.values() if w})) or vstr(rv)[:160]))
     # ---- R2 ----------------------------------------------------------------------------------------
-    ifn, ranks = L.behaviour_index_table(prog, sl)
+    # cmp, with the private rank helper (a nested fn, a method on the enum, ..) made transparent, must be
+    # rank(self).cmp(&rank(other)) for one constant table rank: variant -> integer
     wd, ws, winfo = L.writer_suffix_table(prog, sl)
-    if ifn is None or len(ranks) != 5:
+    cmpf = prog.fn('<libcnb::layer_env::ModificationBehavior as std::cmp::Ord>::cmp')
+    ifn, ranks, good, shown = rank_table(prog, sl, cmpf)
+    if len(ranks) != 5:
         rep.unproven('R2', 'rank-table', 'libcnb/src/layer_env.rs', 'rank table of Ord for ModificationBehavior not recognised: %s' % ranks)
     else:
-        rep.analysed(ifn)
+        rep.analysed(ifn or cmpf)
+        at = ifn or cmpf
         by_rank = sorted(ranks, key=lambda v: ranks[v])
         by_suffix = sorted(ws, key=lambda v: ws[v])
-        rep.check(by_rank == by_suffix and len(set(ranks.values())) == 5, 'R2', 'rank-table', '%s:%d' % (ifn.file, ifn.line),
+        rep.check(by_rank == by_suffix and len(set(ranks.values())) == 5, 'R2', 'rank-table', '%s:%d' % (at.file, at.line),
                   'rank order %s = suffix order' % by_rank,
                   'behaviours are applied in rank order %s but files are applied in suffix order %s' % (by_rank, by_suffix))
-        cmpf = prog.fn('<libcnb::layer_env::ModificationBehavior as std::cmp::Ord>::cmp')
-        rv = strip(sl.local(cmpf, 0))
-        # b.cmp(a).reverse() is a.cmp(b)
-        while rv[0] == 'call' and rv[1].endswith('Ordering::reverse') and len(rv[2]) == 1 and strip(rv[2][0])[0] == 'call' \
-                and strip(rv[2][0])[1].endswith('::cmp') and len(strip(rv[2][0])[2]) == 2:
-            inner = strip(rv[2][0])
-            rv = ('call', inner[1], (inner[2][1], inner[2][0]), inner[3] if len(inner) > 3 else None)
-        good = (rv[0] == 'call' and rv[1].endswith('::cmp') and len(rv[2]) == 2 and
-                all(strip(a)[0] == 'call' and strip(a)[1] == ifn.path for a in rv[2]) and
-                strip(strip(rv[2][0])[2][0])[2] == 0 and strip(strip(rv[2][1])[2][0])[2] == 1)
         rep.check(good, 'R2', 'cmp', '%s:%d' % (cmpf.file, cmpf.line), 'cmp = rank(self).cmp(rank(other))',
-                  'cmp is not rank(self).cmp(rank(other)): ' + vstr(rv)[:120])
+                  'cmp is not rank(self).cmp(rank(other)): ' + shown)
     # ---- R3 ----------------------------------------------------------------------------------------
     sig_ok = f.args == ['&libcnb::layer_env::LayerEnv', 'libcnb::layer_env::Scope', '&libcnb::env::Env'] and f.ret == 'libcnb::env::Env'
     rep.check(sig_ok, 'R3', 'signature', where, 'apply(&self, Scope, &Env) -> Env', 'apply signature changed: %s -> %s' % (f.args, f.ret))
@@ -196,111 +174,93 @@ class _ArmFilter:
         return getattr(self._rep, n)
 
 
+def _show(ev):
+    if ev == ():
+        return 'no insert'
+    out = []
+    for e in ev:
+        if e[0] == 'insert':
+            out.append('%s := %s' % ('+'.join(e[1]) or '""', '+'.join(e[2]) or '""'))
+        else:
+            out.append(' '.join(str(x) for x in e))
+    return ', then '.join(out)
+
+
 def arm_rules(ctx, rep, rule='R5', only=None):
-    """per-behaviour arm shapes of LayerEnvDelta::apply (shared with C10 for the Prepend / Delimiter arms)"""
+    """per-behaviour arm shapes of LayerEnvDelta::apply (shared with C10 for the Prepend / Delimiter arms).
+
+    One iteration of the entry loop is evaluated once per case (behaviour of the entry) x (variable unset / empty /
+    non-empty in the environment built so far) x (delimiter entry for the variable present / absent) — see
+    C04_helpers: branch conditions the case decides are decided (on Option / boolean / string normal forms, through
+    private helpers, closures handed to combinators and match guards), everything else is explored on both edges.  Each
+    case yields the set of insert sequences over all remaining paths, which must be exactly the CNB rule:
+        shape/<arm>       no path inserts anything else than the rule's value under the entry's name
+        always/<arm>      where the rule inserts, no path gets to the next entry without the insert
+        delimiter-lookup  the delimiter joined in is the delta's own (Delimiter, same name) entry, nothing when absent"""
     prog, sl = ctx.prog, ctx.slicer
     L.resolve_roles(prog, sl)
     if only is not None:
         rep = _ArmFilter(rep, only)
-    g = prog.fn(L.DAPPLY)
+    try:
+        g, res, seen, info = H.arm_cases(prog)
+    except Exception as e:      # fail closed: every arm instance is reported unproven below
+        g, res, seen = prog.fn(L.DAPPLY), None, set()
+        info = {'loops': [], 'why': 'evaluation of the delta application failed: %s: %s' % (type(e).__name__, str(e)[:100])}
     rep.analysed(g)
     gw = '%s:%d' % (g.file, g.line)
-    arms = {}
-    rpo = g._rpo()
-    for c in g.calls:
-        if c.indirect or c.name not in ('std::ffi::OsString::push', 'libcnb::env::Env::insert'):
-            continue
-        conds = conditions(g, c.bb, sl)
-        var = [cd for cd in conds if cd.kind == 'variant' and cd.enum == L.MB]
-        if not var or len(var[-1].outcome) != 1:
-            rep.unproven(rule, 'unclassified/' + c.name, c.where(), 'mutation outside a behaviour arm')
-            continue
-        arm = next(iter(var[-1].outcome))
-        bs = sym(g, var[-1].subject)
-        if bs != 'BEHAVIOUR':
-            rep.unproven(rule, arm + '/dispatch', c.where(), 'arm is selected on %s, not on the entry\'s behaviour' % bs)
-        guards = []
-        for cd in conds:
-            gs = guard_str(g, cd)
-            if gs is not None:
-                guards.append(gs)
-        depth = rpo.index(c.bb) if c.bb in rpo else 10 ** 6
-        if c.name.endswith('push'):
-            arms.setdefault(arm, []).append((depth, 'push', sym(g, sl.operand(g, c.args[0])), sym(g, sl.operand(g, c.args[1])), tuple(guards)))
-        else:
-            arms.setdefault(arm, []).append((depth, 'insert', sym(g, sl.operand(g, c.args[1])), sym(g, sl.operand(g, c.args[2])), tuple(guards)))
-    shapes = {a: [x[1:] for x in sorted(v, key=lambda x: x[0])] for a, v in arms.items()}
-    rep.extra['arm_shapes'] = {a: [list(map(str, s)) for s in v] for a, v in shapes.items()}
-    NE = 'is_empty(PREV)==False'
-    # the value finally inserted, as a concatenation: [base] + pushed parts (each with its guards). The accumulator
-    # may start as a fresh OsString (NEW, contributes nothing), as the previous value or as a clone of the entry value.
-    concat = {}
-    for arm, items in shapes.items():
-        ins = [x for x in items if x[0] == 'insert']
-        if len(ins) != 1:
-            concat[arm] = ('?', '%d inserts' % len(ins))
-            continue
-        acc = ins[0][2]
-        seq = [] if acc == 'NEW' else [(acc, ())]
-        for kind, recv, val, guards in items:
-            if kind == 'push':
-                if recv != acc:
-                    seq.append(('push-on-other:' + str(recv), guards))
-                else:
-                    seq.append((val, guards))
-        concat[arm] = (ins[0][1], tuple(seq), ins[0][3])
-    rep.extra['arm_values'] = {a: str(v) for a, v in concat.items()}
-    want = {
-        'Override': [('NAME', (('VALUE', ()),), ())],
-        'Default': [('NAME', (('VALUE', ()),), ('contains_key(NAME)==False',))],
-        'Append': [('NAME', (('PREV', ()), ('DELIM', (NE,)), ('VALUE', ())), ())],
-        'Prepend': [('NAME', (('VALUE', ()), ('DELIM', (NE,)), ('PREV', (NE,))), ()),
-                    ('NAME', (('VALUE', ()), ('DELIM', (NE,)), ('PREV', ())), ())],
-    }
-    for arm, w in want.items():
-        got = concat.get(arm)
-        rep.check(got in w, rule, 'shape/' + arm, gw, '%s: %s' % (arm, w[0]), '%s arm computes %s, the CNB rule is %s' % (arm, got, w[0]))
-    # the insert of an arm happens on EVERY path through the arm (an early `continue` under a compound condition is
-    # not visible as a dominating guard): from the arm's entry no path reaches the next iteration without the insert,
-    # except — for Default — the `contains_key == true` edge
-    from .lib.guards import always_through
-    from .lib.effects import find_loops
-    loops = [L_ for L_ in find_loops(g, sl)]
-    for arm in ('Override', 'Default', 'Append', 'Prepend'):
-        ins = [c for c in g.calls if c.name == 'libcnb::env::Env::insert' and
-               any(cd.kind == 'variant' and cd.enum == L.MB and cd.outcome == frozenset({arm}) for cd in conditions(g, c.bb, sl))]
-        if len(ins) != 1 or not loops:
-            continue
-        c = ins[0]
-        armc = [cd for cd in conditions(g, c.bb, sl) if cd.kind == 'variant' and cd.enum == L.MB][-1]
-        loop = [L_ for L_ in loops if c.bb in L_.body]
-        if not loop:
-            rep.unproven(rule, 'always/' + arm, c.where(), 'insert is not inside the entry loop')
-            continue
-        skip = []
-        if arm == 'Default':
-            for cd in conditions(g, c.bb, sl):
-                if (guard_str(g, cd) or '').startswith('contains_key(NAME)=='):
-                    t = g.blocks[cd.sw_bb]['t']
-                    for tb in set([b for _, b in t['targets']] + [t['else']]):
-                        if tb != cd.target:
-                            skip.append((cd.sw_bb, tb))
-        ends = [loop[0].header] + list(loop[0].exit_bb) + g.return_blocks()
-        ok = always_through(g, armc.target, c.bb, ends, skip)
-        rep.check(ok, rule, 'always/' + arm, c.where(), '%s: the variable is updated on every path through the arm' % arm,
-                  '%s entries can be skipped: some path through the arm reaches the next entry without the insert (e.g. an early `continue`)' % arm)
-    rep.check('Delimiter' not in shapes, rule, 'shape/Delimiter', gw, 'Delimiter entries change no variable',
-              'Delimiter arm mutates the environment: %s' % shapes.get('Delimiter'))
-    # delimiter lookup
-    df = prog.fn(L.DELIM_FOR)
-    rep.analysed(df)
-    rv = strip(sl.local(df, 0))
-    good = False
-    if rv[0] == 'call' and rv[1].endswith('unwrap_or_default'):
-        gv = strip(rv[2][0])
-        if gv[0] == 'call' and gv[1].endswith('::get') and L.self_field(df, gv[2][0]) == 'entries':
-            kv = strip(gv[2][1])
-            good = (kv[0] == 'tuple' and strip(kv[1][0])[0] == 'agg' and strip(kv[1][0])[2] == 'Delimiter'
-                    and strip(kv[1][1])[0] == 'param' and strip(kv[1][1])[2] == 1)
-    rep.check(good, rule, 'delimiter-lookup', '%s:%d' % (df.file, df.line), 'delimiter = entries[(Delimiter, name)] or empty',
-              'delimiter lookup is not entries[(Delimiter, name)].unwrap_or_default(): ' + vstr(rv)[:140])
+    rules_txt = {'Override': 'NAME := VALUE, always', 'Default': 'NAME := VALUE only when the variable is unset',
+                 'Append': 'NAME := PREV [+ DELIM] + VALUE, delimiter only when PREV is non-empty',
+                 'Prepend': 'NAME := VALUE [+ DELIM + PREV], delimiter only when PREV is non-empty', 'Delimiter': 'no variable changes'}
+    if res is None:
+        rep.unproven(rule, 'unclassified/' + H.ENV_INSERT, gw, info.get('why') or 'the per-entry loop of the delta application was not found: %d loops / '
+                     'for_each / fold over self.entries insert into the environment' % len(info['loops']))
+        for arm in ('Override', 'Default', 'Append', 'Prepend', 'Delimiter'):
+            rep.unproven(rule, 'shape/' + arm, gw, '%s arm not analysed (no entry loop); the CNB rule is %s' % (arm, rules_txt[arm]))
+        rep.unproven(rule, 'delimiter-lookup', gw, 'delimiter lookup not analysed (no entry loop)')
+        return
+    for fpath in sorted({fp for fp, _ in seen}):
+        if fpath in prog.fns:
+            rep.analysed(prog.fns[fpath])
+    extra = {}
+    pdesc = {'unset': 'unset', 'empty': 'set to the empty string', 'nonempty': 'set to a non-empty value'}
+    for arm in H.BEHAVIOURS:
+        bad_shape, bad_always = [], []
+        for p in H.PREV_STATES:
+            for d in H.DELIM_STATES:
+                evs = res[(arm, p, d)]
+                exp = H.spec_case(arm, p, d)
+                want = (('insert', ('NAME',), exp),) if exp is not None else ()
+                extra['%s/%s/%s' % (arm, p, d)] = sorted(_show(e) for e in evs)
+                case = 'variable %s, delimiter entry %s' % (pdesc[p], 'present' if d == 'set' else 'absent')
+                wrong = sorted(_show(e) for e in evs if e != () and e != want)
+                if wrong:
+                    bad_shape.append('%s: %s instead of %s' % (case, ' | '.join(wrong), _show(want)))
+                elif not evs:
+                    bad_shape.append('%s: no path through the arm reaches the next entry' % case)
+                elif exp is not None and want not in evs:
+                    bad_shape.append('%s: nothing is inserted instead of %s' % (case, _show(want)))
+                if exp is not None and () in evs:
+                    bad_always.append(case)
+        rep.check(not bad_shape, rule, 'shape/' + arm, gw, '%s: %s' % (arm, rules_txt[arm]),
+                  '%s arm does not follow the CNB rule (%s): %s' % (arm, rules_txt[arm], '; '.join(bad_shape[:3])))
+        if arm != 'Delimiter':
+            rep.check(not bad_always, rule, 'always/' + arm, gw, '%s: the variable is updated on every path through the arm' % arm,
+                      '%s entries can be skipped: some path through the arm reaches the next entry without the insert (e.g. an early '
+                      '`continue`) with %s' % (arm, '; '.join(bad_always[:2])))
+    rep.extra['arm_values'] = extra
+    # every insert into an environment that the delta application can reach was met by the case evaluation
+    for fp, bb in sorted(H.all_insert_sites(prog, info['engine']) - seen):
+        c = prog.fns[fp].call_at(bb)
+        rep.unproven(rule, 'unclassified/' + H.ENV_INSERT, c.where() if c else gw, 'mutation outside the per-entry dispatch of the delta application')
+    # delimiter lookup: joined in exactly when the delta has a (Delimiter, same name) entry
+    bad = []
+    for arm in ('Append', 'Prepend'):
+        for d in H.DELIM_STATES:
+            for ev in res[(arm, 'nonempty', d)]:
+                vals = [e[2] for e in ev if e and e[0] == 'insert']
+                has = any('DELIM' in v for v in vals)
+                odd = any(x.startswith('?') for v in vals for x in v)
+                if ev != () and (has != (d == 'set') or odd):
+                    bad.append('%s, delimiter entry %s: %s' % (arm, 'present' if d == 'set' else 'absent', _show(ev)))
+    rep.check(not bad, rule, 'delimiter-lookup', gw, 'delimiter = entries[(Delimiter, name)] or empty',
+              'the delimiter joined in is not entries[(Delimiter, name)] / empty when absent: ' + '; '.join(bad[:3]))
